@@ -45,7 +45,7 @@ class Adapter(EnvAdapter):
 
         ts = T_SWEEP_QUICK_FEW if tier == "quick" else T_SWEEP_THOROUGH_FEW
         return self._base_configs(tier) + [_c(f"r1c3h1a1_s1q2_t{t}_sweep", 1, 3, 1, 1, 1, 2, t, episodes=1, max_steps=t + 2,
-                                              policies=["deliver"], probe_every=0, props=["C03", "C11"]) for t in ts]
+                                              policies=["deliver"], probe_every=0, props=["C01", "C03", "C11", "C12"]) for t in ts]
 
     def _base_configs(self, tier):
         pols = ["carrier", "deliver", "random"]                               # one agent
